@@ -23,7 +23,11 @@ class Check(EngineCheck):
                 # the property's "consequently" clauses on the concrete model's printed traces (Props/EngineImplSched3.lean)
                 "LLBuild.Refine.EngineImpl_sound_C02_executed_reference_concrete", "LLBuild.Refine.EngineImpl_sound_C02_identical_value_no_rerun",
                 "LLBuild.Refine.EngineImpl_sound_C02_order_only_never_triggers", "LLBuild.Refine.EngineImpl_sound_C02_null_build",
-                "LLBuild.Engine.C02_order_only_never_triggers", "LLBuild.Engine.C02_identical_value_no_rerun", "LLBuild.Engine.Ref_same_value"]
+                "LLBuild.Engine.C02_order_only_never_triggers", "LLBuild.Engine.C02_identical_value_no_rerun", "LLBuild.Engine.Ref_same_value",
+                # token level (Props/EngineImplSched5.lean): the reported reason is true of the state the build started from and of
+                # earlier tokens of the same trace; at most one T k; every T k preceded by an N k
+                "LLBuild.Refine.EngineImpl_sound_C02_reason_true", "LLBuild.Refine.EngineImpl_sound_C02_at_most_once",
+                "LLBuild.Refine.EngineImpl_sound_C02_run_needs_reason"]
     mix = [(0.45, {}), (0.2, {"cancel": True}), (0.15, {"threads": True}), (0.2, {"reprogram": True})]
     budget = (300, 3000)
     assumptions = EngineCheck.assumptions + [
